@@ -1366,6 +1366,77 @@ func (p *Prog) serveLoop(prop string) *serveResult {
 		}
 	}
 
+	// ---- C16.R7: bookkeeping the serve function keeps on the ctx is put on every ctx a handler can see ----
+	if prop == "C16" && ctxAlloc != nil {
+		// bookkeeping fields: first-level ctx fields this function assigns a computed (non-constant) value
+		book := map[*types.Var]bool{}
+		for _, b := range fn.Blocks {
+			for _, in := range b.Instrs {
+				if st, ok := in.(*ssa.Store); ok {
+					if fa, ok := st.Addr.(*ssa.FieldAddr); ok && isCtxLoad(fa.X) {
+						if _, isC := st.Val.(*ssa.Const); !isC {
+							if fv := fieldVar(fa.X.Type(), fa.Field); fv != nil && ctxFieldBit(fv) == 0 {
+								book[fv] = true
+							}
+						}
+					}
+				}
+			}
+		}
+		// points where the ctx variable receives a (new) object
+		var acq []ssa.Instruction
+		for _, b := range fn.Blocks {
+			for _, in := range b.Instrs {
+				switch w := in.(type) {
+				case *ssa.Store:
+					if w.Addr == ssa.Value(ctxAlloc) {
+						acq = append(acq, in)
+					}
+				case ssa.CallInstruction:
+					for _, a := range w.Common().Args {
+						if a == ssa.Value(ctxAlloc) {
+							acq = append(acq, in) // &ctx handed to a helper that may replace the object
+						}
+					}
+				}
+			}
+		}
+		var bnames []*types.Var
+		for fv := range book {
+			bnames = append(bnames, fv)
+		}
+		sort.Slice(bnames, func(i, j int) bool { return bnames[i].Name() < bnames[j].Name() })
+		isH := func(i ssa.Instruction) bool { return i == ssa.Instruction(hcall) }
+		for _, fv := range bnames {
+			fv := fv
+			stores := func(i ssa.Instruction) bool {
+				st, ok := i.(*ssa.Store)
+				if !ok {
+					return false
+				}
+				fa, ok := st.Addr.(*ssa.FieldAddr)
+				return ok && isCtxLoad(fa.X) && fieldVar(fa.X.Type(), fa.Field) == fv
+			}
+			okAll, pos := true, p.Pos(fn.Pos())
+			var wit []string
+			for _, a := range acq {
+				if hit, path := reachAvoiding(fn, a, isH, stores, nil); hit != nil {
+					okAll = false
+					pos = p.Pos(a.Pos())
+					wit = blocksString(p, path)
+					break
+				}
+			}
+			add("C16", "R7", "ctx."+fv.Name()+" is assigned on every path from a point where the ctx object is (re)acquired to the handler dispatch", okAll, pos,
+				"the serve function keeps "+fv.Name()+" on the ctx, but a ctx acquired at this point (after a timed-out request, or when the ctx is given up while the connection is idle) reaches a handler without it: later requests on the connection see the zero value", wit...)
+		}
+		res.counts["C16.R7 bookkeeping fields kept on the ctx"] = len(bnames)
+		res.counts["C16.R7 points where the ctx object is (re)acquired"] = len(acq)
+		if len(bnames) < 3 || len(acq) < 2 {
+			undec("C16", "R7", "ctx bookkeeping", fmt.Sprintf("found %d bookkeeping fields and %d acquisition points: the rule lost its anchors", len(bnames), len(acq)))
+		}
+	}
+
 	// ---- C10.R1: the close decision depends on every documented source ----
 	if closeCond != nil && prop == "C10" {
 		at := condAtoms(closeCond)
